@@ -346,12 +346,15 @@ func (c *client) setupRequestChan() chan clientRequest {
 	requests := make(chan clientRequest)
 
 	c.doRequest = func(ctx context.Context, cr clientRequest) (clientResponse, error) {
+		vpoint(c, "req.enq.pre", "id", cr.req.ID, "method", cr.req.Method)
 		select {
 		case requests <- cr:
 		case <-c.exiting:
+			vpoint(c, "req.exiterr", "id", cr.req.ID)
 			return clientResponse{}, fmt.Errorf("websocket routine exiting")
 		}
 
+		vpoint(c, "req.enq", "id", cr.req.ID, "method", cr.req.Method)
 		var ctxDone <-chan struct{}
 		var resp clientResponse
 
@@ -367,6 +370,7 @@ func (c *client) setupRequestChan() chan clientRequest {
 				break loop
 			case <-ctxDone: // send cancel request
 				ctxDone = nil
+				vpoint(c, "cancel.enq.pre", "id", cr.req.ID)
 
 				rp, err := json.Marshal([]param{{v: reflect.ValueOf(cr.req.ID)}})
 				if err != nil {
@@ -390,6 +394,7 @@ func (c *client) setupRequestChan() chan clientRequest {
 			}
 		}
 
+		vpoint(c, "req.ret", "id", cr.req.ID)
 		return resp, nil
 	}
 
@@ -432,6 +437,7 @@ func (c *client) makeOutChan(ctx context.Context, ftyp reflect.Type, valOut int)
 		retVal = ch.Convert(ftyp.Out(valOut))
 
 		incoming := make(chan reflect.Value, 32)
+		vpoint(c, "buf.new", "ch", ch.Pointer())
 
 		// gorotuine to handle buffering of items
 		go func() {
@@ -463,12 +469,14 @@ func (c *client) makeOutChan(ctx context.Context, ftyp reflect.Type, valOut int)
 
 				switch chosen {
 				case 0:
+					vpoint(c, "buf.close", "ch", ch.Pointer(), "why", "ctx")
 					ch.Close()
 					return
 				case 1:
 					if ok {
 						vvval := val.Interface().(reflect.Value)
 						buf.PushBack(vvval)
+						vpoint(c, "buf.push", "ch", ch.Pointer())
 						if buf.Len() > 1 {
 							if buf.Len() > 10 {
 								log.Warnw("rpc output message buffer", "n", buf.Len())
@@ -482,9 +490,11 @@ func (c *client) makeOutChan(ctx context.Context, ftyp reflect.Type, valOut int)
 
 				case 2:
 					buf.Remove(front)
+					vpoint(c, "buf.pop", "ch", ch.Pointer())
 				}
 
 				if incoming == nil && buf.Len() == 0 {
+					vpoint(c, "buf.close", "ch", ch.Pointer(), "why", "drained")
 					ch.Close()
 					return
 				}
@@ -493,6 +503,7 @@ func (c *client) makeOutChan(ctx context.Context, ftyp reflect.Type, valOut int)
 
 		return ctx, func(result []byte, ok bool) {
 			if !ok {
+				vpoint(c, "sink.close", "ch", ch.Pointer())
 				close(incoming)
 				return
 			}
@@ -508,6 +519,7 @@ func (c *client) makeOutChan(ctx context.Context, ftyp reflect.Type, valOut int)
 				return
 			}
 
+			vpoint(c, "sink.val.pre", "ch", ch.Pointer())
 			select {
 			case incoming <- val:
 			case <-ctx.Done():
@@ -697,6 +709,7 @@ func (fn *rpcFunc) handleRpcCall(args []reflect.Value) (results []reflect.Value)
 			break
 		}
 
+		vpoint(fn.client, "call.retry", "id", req.ID, "attempt", attempt)
 		time.Sleep(b.next(attempt))
 	}
 
